@@ -150,6 +150,11 @@ def run(ctx, res):
                 if lv == 2 and fv[-1:] == ["position"]:
                     pos_ok = True
         ok_ls = lk == 2 and fk[-1:] == ["name"] and pos_ok and ls_.dominates(last[0], lins[0][0])
+        # ... on every path: a `set` that can return without (re)inserting keeps an earlier definition's position for a
+        # name bound again in the same block (`let x = 1  let x = x + 1`)
+        rets_ = [b for b in ls_.reachable_blocks() if ls_.blocks[b]["term"]["t"] == "return"]
+        if ok_ls and any(b in D.reach_from(ls_, [0], avoid_blocks=[lins[0][0]]) for b in rets_):
+            ok_ls = False
     if ok_ls:
         res.ok("DEF-SOURCE", "LocalBindings::set: innermost block, keyed by symbol.name, holding symbol.position")
     else:
